@@ -674,6 +674,9 @@ func (x *Exec) bindVar(s *State, o *types.Var, v Val) {
 		r := s.alloc("box." + o.Name())
 		s.storePtr(o.Type(), r, v)
 		s.env[o] = Val{K: KInt, T: types.NewPointer(o.Type()), S: r}
+		if x.isPrivateBoxed(o) {
+			s.privRefs = append(s.privRefs[:len(s.privRefs):len(s.privRefs)], r)
+		}
 		return
 	}
 	if au, ok := under(o.Type()).(*types.Array); ok && x.isSlicedArr(o) && v.K == KArr {
